@@ -170,7 +170,7 @@ def _plain(obj):
 def _mk(spec, dtype=None, idx_dtype=None):
     if spec is None:
         return None, None
-    d = vlib.spec_dense(spec)
+    d = vlib.spec_dense(spec, dtype=dtype or "int64")
     if spec.get("format") == "dense":
         return d, d
     return vlib.build_array(spec, dtype=dtype, idx_dtype=idx_dtype), d
@@ -184,8 +184,8 @@ def impl_case(case):
     import sparse
     warnings.filterwarnings("ignore")
     op = case["op"]
-    a, ad = _mk(case.get("a"), idx_dtype=case.get("idx_dtype"))
-    b, bd = _mk(case.get("b"))
+    a, ad = _mk(case.get("a"), dtype=case.get("dtype"), idx_dtype=case.get("idx_dtype"))
+    b, bd = _mk(case.get("b"), dtype=case.get("dtype"))
     A = case.get("args", {})
     f_impl, f_np = API[op](np, sparse, a, ad, b, bd, A)
     out = {}
@@ -301,6 +301,37 @@ def _probe(np, sparse, a, ad, b, bd, A):
     raise ValueError(which)
 
 
+def _dot_rt(np, sparse, a, ad, b, bd, A):
+    """products with an explicit result type, so that the sparse-result kernels are reached"""
+    rt = {"coo": sparse.COO, "gcxs": sparse.GCXS, "dense": np.ndarray, None: None}[A["rt"]]
+    return (lambda: sparse.tensordot(a, b, axes=1, return_type=rt)), (lambda: np.tensordot(ad, bd, axes=1))
+
+
+SUBNS = {
+    # name in a NumPy sub-namespace -> (callable path, number of array arguments).  `collides`: the bare name also
+    # exists in the top-level sparse namespace (with another meaning or another specification)
+    "linalg.diagonal": 1, "linalg.outer": 2, "linalg.matmul": 2, "linalg.vecdot": 2, "linalg.matrix_transpose": 1,
+    "linalg.tensordot": 2, "linalg.norm": 1, "linalg.cholesky": 1, "linalg.trace": 1, "linalg.det": 1, "linalg.inv": 1,
+    "linalg.svd": 1, "linalg.cross": 2, "linalg.matrix_rank": 1, "linalg.eigvals": 1,
+    "emath.sqrt": 1, "emath.log": 1, "emath.log2": 1, "emath.log10": 1, "emath.arccos": 1, "emath.arcsin": 1,
+    "fft.fft": 1, "fft.ifft": 1, "fft.fftshift": 1, "fft.fft2": 1,
+    "lib.stride_tricks.sliding_window_view": 0,
+}
+
+
+def _np_subns(np, sparse, a, ad, b, bd, A):
+    """a NumPy function of a sub-namespace that the library does not mirror: the NEP-18 dispatch must answer
+    NotImplemented (NumPy then raises TypeError), whatever top-level sparse function has the same bare name"""
+    f = np
+    for part in A["fn"].split("."):
+        f = getattr(f, part)
+    n = SUBNS[A["fn"]]
+    if A["fn"].endswith("sliding_window_view"):
+        return (lambda: f(a, 1)), None
+    args = [a, a][:n]
+    return (lambda: f(*args)), None
+
+
 def _seq_zero(np, sparse, a, ad, b, bd, A):
     """a zero-length contraction (its all-zero result is built by tensordot's zero-size shortcut, or an empty COO is
     built from caller-supplied unsigned coords), then a second operation that joins it with / shifts it like an
@@ -389,6 +420,8 @@ API = {
     "take": lambda np, sparse, a, ad, b, bd, A: ((lambda: sparse.take(a, np.array(A["ind"], dtype=np.intp), axis=dec_axis(A["axis"]))), (lambda: np.take(ad, np.array(A["ind"], dtype=np.intp), axis=dec_axis(A["axis"])))),
     "clip": lambda np, sparse, a, ad, b, bd, A: ((lambda: sparse.clip(a, A["lo"], A["hi"])), (lambda: np.clip(ad, A["lo"], A["hi"]))),
     "seq_zero": _seq_zero,
+    "dot_rt": _dot_rt,
+    "np_subns": _np_subns,
     "ctor_coo": _ctor_coo,
     "ctor_gcxs": _ctor_gcxs,
     "random": _random,
@@ -399,8 +432,130 @@ API = {
 }
 
 
+CPU_LIMIT_S = 10          # CPU seconds a single indexing call on a nearly empty array of huge extent may use
+
+
+def _huge_expected(case):
+    """the answer computed from the coordinate list: (shape, sorted coords, data) of x[key]; None = scalar/other"""
+    shape, coords, data, key = case["shape"], case["coords"], case["data"], case["key"]
+    out_shape, maps = [], []
+    for ax, k in enumerate(key):
+        d = shape[ax]
+        if k[0] == "i":
+            i = k[1] + d if k[1] < 0 else k[1]
+            maps.append(("i", i))
+        else:
+            r = range(*slice(k[1], k[2], k[3]).indices(d))
+            out_shape.append(len(r))
+            maps.append(("s", r))
+    for ax in range(len(key), len(shape)):
+        out_shape.append(shape[ax])
+        maps.append(("s", range(shape[ax])))
+    res = []
+    for c, v in zip(coords, data, strict=True):
+        t, ok = [], True
+        for (kind, m), ci in zip(maps, c, strict=True):
+            if kind == "i":
+                ok = ok and ci == m
+            else:
+                if ci in m:
+                    t.append(m.index(ci))
+                else:
+                    ok = False
+        if ok:
+            res.append((t, v))
+    res.sort()
+    if case.get("take"):            # take(x, [i], axis=0) keeps the axis, with length 1
+        return [1] + out_shape, [[0] + t for t, _ in res], [v for _, v in res]
+    return out_shape, [t for t, _ in res], [v for _, v in res]
+
+
+def _huge_run(case):
+    import numpy as np
+    import sparse
+    shape = tuple(case["shape"])
+    nd = len(shape)
+    n = len(case["coords"])
+    co = np.array(case["coords"], dtype=np.intp).reshape(n, nd).T if n else np.zeros((nd, 0), dtype=np.intp)
+    x = sparse.COO(co, np.array(case["data"], dtype=np.int64), shape=shape)
+    if case["fmt"] == "dok":
+        x = sparse.DOK.from_coo(x)
+    key = tuple(k[1] if k[0] == "i" else slice(k[1], k[2], k[3]) for k in case["key"])
+    if case.get("take"):
+        r = sparse.take(x, np.array([key[0]], dtype=np.intp), axis=0)
+    else:
+        r = x[key if len(key) > 1 else key[0]]
+    if isinstance(r, sparse.DOK):
+        r = r.asformat("coo")
+    if isinstance(r, sparse.COO):
+        order = np.lexsort(r.coords[::-1]) if r.ndim else np.arange(r.nnz)
+        keep = [i for i in order if r.data[i] != 0]
+        return {"shape": [int(d) for d in r.shape], "coords": [[int(v) for v in r.coords[:, i]] for i in keep], "data": [int(r.data[i]) for i in keep]}
+    return {"scalar": int(r)}
+
+
+def impl_huge(case):
+    """one indexing call on an array of huge extent with <= 3 stored elements, in a forked child whose CPU time is
+    limited (a nogil kernel cannot be interrupted otherwise): {"out": ...} | {"slow": True} | {"exc": ...}"""
+    import json as _json
+    import os
+    import resource
+    import signal
+    import sparse
+    import numpy as np
+    # compile the indexing kernels in THIS process first, so the child's CPU budget is not spent in the JIT
+    if not _HUGE_WARM:
+        _HUGE_WARM.append(1)
+        _huge_warm(np, sparse)
+    rd, wr = os.pipe()
+    return _huge_fork(case, rd, wr, os, resource, signal, _json)
+
+
+_HUGE_WARM = []
+
+
+def _huge_warm(np, sparse):
+    w = sparse.COO(np.array([[1, 5]]), np.array([1, 2]), shape=(16,))
+    _ = w[2:9], w[2:9:2], w[9:2:-1], w[3]
+    w2 = sparse.COO(np.array([[1, 5], [0, 1]]), np.array([1, 2]), shape=(16, 2))
+    _ = w2[2:9, 1], w2[1, 0:2], w2[2:9, 0:1]
+    _ = sparse.DOK.from_coo(w)[2:9]
+    _ = sparse.take(w, np.array([1], dtype=np.intp), axis=0)
+
+
+def _huge_fork(case, rd, wr, os, resource, signal, _json):
+    pid = os.fork()
+    if pid == 0:
+        try:
+            os.close(rd)
+            resource.setrlimit(resource.RLIMIT_CPU, (CPU_LIMIT_S, CPU_LIMIT_S + 1))
+            try:
+                out = {"out": _huge_run(case)}
+            except Exception as ex:  # noqa: BLE001
+                out = {"exc": canon_exc(ex), "cls": type(ex).__name__, "msg": str(ex)[:120]}
+            os.write(wr, _json.dumps(out).encode())
+        finally:
+            os._exit(0)
+    os.close(wr)
+    buf = b""
+    while True:
+        chunk = os.read(rd, 65536)
+        if not chunk:
+            break
+        buf += chunk
+    os.close(rd)
+    _pid, st = os.waitpid(pid, 0)
+    if os.WIFSIGNALED(st) and os.WTERMSIG(st) in (signal.SIGXCPU, signal.SIGKILL):
+        return {"slow": True, "cpu_limit_s": CPU_LIMIT_S}
+    if not buf:
+        return {"crash": st}
+    return _json.loads(buf.decode())
+
+
 def impl_kernel(case):
     """run one compiled kernel on small inputs"""
+    if case["k"] == "huge":
+        return impl_huge(case)
     import numba
     import numpy as np
     from sparse.numba_backend import _common as C
@@ -672,6 +827,38 @@ def gen_cases(tier, seed):
                         for fa_, fb_ in ((("coo", "coo"),) if tier == "quick" else (("coo", "coo"), ("gcxs", "gcxs"), ("coo", "gcxs"))):
                             add("seq_zero", with_fmt(pa, fa_), with_fmt(pb, fb_), prod=prod, second=sec, axis=ax, order=order,
                                 third=third, x=with_fmt(xs, "coo"))
+    # ---- products with an explicit result type and with complex / large-integer data (the sparse-result kernels:
+    # a TypingError or a float64 accumulator shows only with these dtypes)
+    drng = random.Random(seed * 23 + 9)
+    dshapes = [(2, 3), (3, 2), (3, 0), (0, 3), (2, 2), (1, 3), (3, 1), (3,), (2,)]
+    dspecs = [vlib.gen_array_spec(drng, shape=sh, density=0.8) for sh in dshapes]
+    for s1, s2 in itertools.product(dspecs, repeat=2):
+        if s1["shape"][-1] != s2["shape"][0]:
+            continue
+        for ka, kb in (("coo", "dense"), ("dense", "coo"), ("gcxs", "dense"), ("dense", "gcxs"), ("gcxs", "gcxs"), ("coo", "coo"), ("gcsc", "dense"), ("dense", "gcsc")):
+            for rt in ("coo", "gcxs", "dense", None):
+                for dt in ("int64", "complex128", "complex64", "int64big"):
+                    if tier == "quick" and drng.random() > (0.2 if dt != "int64" else 0.1):
+                        continue
+                    def fm(sp_, k_):
+                        t = with_fmt(sp_, "gcxs" if k_ == "gcsc" else k_)
+                        if k_ == "gcsc" and len(t["shape"]) == 2:
+                            t["caxes"] = [1]
+                        if dt == "int64big":
+                            t = dict(t, data=[v * 2 ** 28 for v in t["data"]])
+                        return t
+                    c = {"op": "dot_rt", "a": fm(s1, ka), "b": fm(s2, kb), "args": {"rt": rt}}
+                    if dt.startswith("complex"):
+                        c["dtype"] = dt
+                    cases.append(c)
+    # ---- NumPy functions of sub-namespaces the library does not mirror (must stay "not implemented": TypeError)
+    for sp in specs:
+        if len(sp["shape"]) in (1, 2, 3) and (tier != "quick" or sp["shape"] in ([2], [2, 2], [2, 1, 2], [0, 2])):
+            for fn in SUBNS:
+                for fmt in fmts_for(sp, ("coo", "gcxs", "dok")):
+                    if tier == "quick" and fmt != "coo" and rng.random() < 0.6:
+                        continue
+                    add("np_subns", with_fmt(sp, fmt, rng), fn=fn)
     # ---- broadcast_to / elementwise
     bshapes = [list(t) for k in range(0, 4) for t in itertools.product([0, 1, 2], repeat=k)]
     for sp in specs:
@@ -900,6 +1087,31 @@ def gen_kernel_cases(tier, seed):
             r0 *= d
         xs = sorted(rng.sample(range(size), rng.randint(0, size)))
         out.append({"k": "linearize", "xs": xs, "shape": shape, "order": order, "rshape": rshape, "cshape": [r0, size // r0]})
+    # indexing / slicing / take on HUGE extents with at most three stored elements: the time must not depend on the extent
+    hr = random.Random(seed * 41 + 3)
+    exts = [2 ** 31, 2 ** 40] if tier == "quick" else [2 ** 31, 2 ** 33, 2 ** 35, 2 ** 38, 2 ** 40]
+    for E in exts:
+        pos = [5, 2 ** 20 + 1, E // 2 + 7, E - 2]
+        sls = [["s", 3, E // 2, 1], ["s", 3, E // 2, 7], ["s", E // 2, 3, -1], ["s", E - 5, 2, -5], ["s", None, None, 2],
+               ["s", 1, None, None], ["s", None, -3, None], ["s", 6, E - 1, 2 ** 20]]
+        for nnz in (0, 1, 2, 3):
+            for fmt in ("coo", "dok"):
+                ks = sls if fmt == "coo" else hr.sample(sls, 3)
+                if tier == "quick":
+                    ks = hr.sample(ks, min(len(ks), 4 if fmt == "coo" else 2))
+                for k in ks:
+                    cs = sorted(hr.sample(pos, nnz))
+                    out.append({"k": "huge", "shape": [E], "coords": [[c] for c in cs], "data": [hr.choice([1, 2, 3]) for _ in cs], "key": [k], "fmt": fmt})
+                    # 2-d: a long NON-trailing slice followed by an integer / a short slice; a row with one element
+                    cs2 = sorted([c, hr.randint(0, 2)] for c in cs)
+                    out.append({"k": "huge", "shape": [E, 3], "coords": cs2, "data": [hr.choice([1, 2, 3]) for _ in cs2],
+                                "key": [k, hr.choice([["i", 1], ["s", 0, 2, 1]])], "fmt": fmt})
+                    cs3 = sorted([hr.randint(0, 2), c] for c in cs)
+                    out.append({"k": "huge", "shape": [3, E], "coords": cs3, "data": [hr.choice([1, 2, 3]) for _ in cs3],
+                                "key": [hr.choice([["i", 1], ["s", 0, 2, 1]]), k], "fmt": fmt})
+            cs = sorted(hr.sample(pos, nnz))
+            out.append({"k": "huge", "shape": [E], "coords": [[c] for c in cs], "data": [1] * len(cs), "key": [["i", (cs or [7])[0]]], "fmt": "coo"})
+            out.append({"k": "huge", "shape": [E], "coords": [[c] for c in cs], "data": [1] * len(cs), "key": [["i", (cs or [7])[0]]], "fmt": "coo", "take": True})
     for _ in range(n):
         a = sorted(rng.randint(0, 6) for _ in range(rng.randint(0, 8)))
         out.append({"k": "search", "a": a, "v": rng.randint(-1, 7), "right": rng.random() < 0.5})
@@ -935,6 +1147,8 @@ def spec_oracle(case):
         if n:
             np.add.at(out, tuple(np.array(r, dtype=np.intp) for r in co), np.array(da))
         return True, out
+    if op == "np_subns":
+        return False, None        # sparse mirrors no NumPy sub-namespace: every such function is "not implemented"
     if op == "random":
         sh = A["shape"]
         if any(d < 0 for d in sh):
@@ -1142,6 +1356,18 @@ def kernel_lit(c, r):
             body = f"KLinearize {zl(c['xs'])} {zl(c['shape'])} {zl(c['order'])} {zl(c['rshape'])} {zl(c['cshape'])} {t3}"
     elif k == "uncompress":
         body = f"KUncompress {zl(c['indptr'])} {zl(o)}"
+    elif k == "huge":
+        esh, eco, eda = _huge_expected(c)
+        if isinstance(r, dict) and r.get("slow"):
+            status = 1
+        if isinstance(o, dict) and "scalar" in o:
+            # an all-integer key: the answer is the element
+            body = f"KSparseEq {zl([])} {vlist([], zl)} {zl(eda or [0])} {zl([])} {vlist([], zl)} {zl([o['scalar']])}"
+        else:
+            o = o if isinstance(o, dict) else {"shape": [], "coords": [], "data": []}
+            if status == 0 and isinstance(r, dict) and "exc" in r:
+                status = 3
+            body = (f"KSparseEq {zl(esh)} {vlist(eco, zl)} {zl(eda)} {zl(o.get('shape', []))} {vlist(o.get('coords', []), zl)} {zl(o.get('data', []))}")
     else:
         body = f"KSearch {vbool(c['right'])} {zl(c['a'])} {vZ(c['v'])} {vZ(o)}"
     return f"({status}, {body})"
@@ -1195,7 +1421,7 @@ def api_group(c):
     op = c["op"]
     if op == "dot":
         return 0
-    if op in ("matmul", "tensordot", "idx_dtype_op", "kron", "outer", "vecdot", "einsum", "seq_zero"):
+    if op in ("matmul", "tensordot", "idx_dtype_op", "kron", "outer", "vecdot", "einsum", "seq_zero", "dot_rt"):
         return 1
     return 2
 
@@ -1210,7 +1436,7 @@ def campaign(build, tier, seed, report, budget=1):
     t0 = time.time()
     res, sus1 = run_watchdogged("impl_case", cases, api_group, lambda c: c["op"])
     t1 = time.time()
-    kres, sus2 = run_watchdogged("impl_kernel", kcases, lambda c: 0 if c["k"] in ("dcn", "dcns", "dnc", "dncs") else 2 if c["k"] in ("csrcsr", "cscnd") else 1, lambda c: c["k"])
+    kres, sus2 = run_watchdogged("impl_kernel", kcases, lambda c: 0 if c["k"] in ("dcn", "dcns", "dnc", "dncs") else 2 if c["k"] in ("csrcsr", "cscnd", "huge") else 1, lambda c: c["k"])
     t2 = time.time()
     report["notes"].append(f"{sus1 + sus2} cases exceeded the {4 * WATCHDOG:.0f} s watchdog in the first pass and were re-run under 120 s; "
                            f"implementation side: API {t1 - t0:.0f} s, kernels {t2 - t1:.0f} s")
@@ -1340,7 +1566,13 @@ def campaign(build, tier, seed, report, budget=1):
     kbad = build.judge("c18_kernel", "From Verif Require Import C18Judge.", "Z * kcase", "judge_kernel", klits)
     for j, code in kbad:
         c, r = kcases[j], kres[j]
-        if code == 10:
+        if code == 10 and c["k"] == "huge":
+            kind, cl = "value", "time_not_proportional:getitem_huge_extent"
+        elif code == 12:
+            kind, cl = "value", "exception:getitem_huge_extent"
+        elif code == 1 and c["k"] == "huge":
+            kind, cl = "value", "value:getitem_huge_extent"
+        elif code == 10:
             kind, cl = "value", f"hang:kernel:{c['k']}"
         elif code == 11:
             kind, cl = "value", f"interpreter_crash:kernel:{c['k']}"
